@@ -28,15 +28,18 @@ VARIABLES l,      \* next line
           msize,  \* words of memory the running program has allocated (and paid for) so far
           sto,    \* model storage of the running program: key word -> value word
           orig,   \* storage committed before the program's transaction ("original" values of net gas metering)
+          envv,   \* what the nullary environment opcodes are specified to return in the program's set-up: name -> word
+          accts,  \* known accounts: address word -> [bal, size, hash] (what BALANCE / EXTCODESIZE / EXTCODEHASH return)
           viol,   \* set of <<clause, {opcode}, line>>
           fired   \* per clause: how many times it was evaluated
-mvars == <<l, mem, msize, sto, orig, viol, fired>>
+mvars == <<l, mem, msize, sto, orig, envv, accts, viol, fired>>
 
 Clauses == {"Result", "RestUnchanged", "Cost", "StackOp", "MemReadBack", "StorageReadBack", "Executes", "FinalMemory",
-            "FinalStorage"}
+            "FinalStorage", "EnvOpsReadOnly"}
+AcctOps == {"BALANCE", "EXTCODESIZE", "EXTCODEHASH"}
 Empty == [a \in {} |-> 0]
 
-MonInit == l = 1 /\ mem = Empty /\ msize = 0 /\ sto = Empty /\ orig = Empty /\ viol = {} /\ fired = [c \in Clauses |-> 0]
+MonInit == l = 1 /\ mem = Empty /\ msize = 0 /\ sto = Empty /\ orig = Empty /\ envv = Empty /\ accts = Empty /\ viol = {} /\ fired = [c \in Clauses |-> 0]
 
 \* judged: set of clause names evaluated; bad: subset that failed
 Judge(op, judged, bad) ==
@@ -50,7 +53,7 @@ Small(w) == Lt(w, "65536") /\ BigLeq(Zero, w)     \* an offset the generator may
 \* later steps that would compute with it are not judged
 AllWords(s) == \A i \in DOMAIN s : IsWord(s[i])
 
-StepEv(e, after) ==
+StepEv0(e, after) ==
    LET before == e.b
        op     == e.op
        n      == Len(before)
@@ -71,6 +74,19 @@ StepEv(e, after) ==
      [] op = "POP"  -> Judge(op, {"StackOp"}, {c \in {"StackOp"} : ~PopOK(before, after)}) /\ UNCHANGED <<mem, msize, sto, orig>>
      [] op = "DUP"  -> Judge(op, {"StackOp"}, {c \in {"StackOp"} : ~DupOK(e.k, before, after)}) /\ UNCHANGED <<mem, msize, sto, orig>>
      [] op = "SWAP" -> Judge(op, {"StackOp"}, {c \in {"StackOp"} : ~SwapOK(e.k, before, after)}) /\ UNCHANGED <<mem, msize, sto, orig>>
+     \* state-reading opcodes push what the environment defines and leave everything else alone
+     [] op \in DOMAIN envv ->
+          LET okS == Len(after) = n + 1 /\ Below(after, 1) = before
+              okR == Len(after) >= 1 /\ after[Len(after)] = envv[op]
+          IN  /\ Judge(op, {"Result", "RestUnchanged"}, {c \in {"Result"} : ~okR} \cup {c \in {"RestUnchanged"} : ~okS})
+              /\ UNCHANGED <<mem, msize, sto, orig>>
+     [] op \in AcctOps ->
+          LET okS == RestOK(1, before, after)
+              kn  == n >= 1 /\ before[n] \in DOMAIN accts
+              f   == IF op = "BALANCE" THEN "bal" ELSE IF op = "EXTCODESIZE" THEN "size" ELSE "hash"
+              okR == kn => (Len(after) >= 1 /\ after[Len(after)] = accts[before[n]][f])
+          IN  /\ Judge(op, {"Result", "RestUnchanged"}, {c \in {"Result"} : ~okR} \cup {c \in {"RestUnchanged"} : ~okS})
+              /\ UNCHANGED <<mem, msize, sto, orig>>
      \* "memory and storage opcodes read back what was written"
      \* "charges the specified gas": 3 + the memory expansion; the frame's allocated words are monitor state
      [] op \in {"MSTORE", "MSTORE8"} ->
@@ -109,6 +125,8 @@ StepEv(e, after) ==
               /\ UNCHANGED <<mem, msize, sto, orig>>
      [] OTHER -> UNCHANGED <<mem, msize, sto, orig, viol, fired>>
 
+StepEv(e, after) == StepEv0(e, after) /\ UNCHANGED <<envv, accts>>
+
 \* the program ran to its STOP, and what the real memory / storage hold at the end is what the program wrote
 EndEv(e) ==
    LET okX == e.err = ""
@@ -116,16 +134,24 @@ EndEv(e) ==
               /\ \A i \in 1..Len(e.mem) : (i - 1) \notin DOMAIN mem => e.mem[i] = 0
        okS == /\ \A i \in 1..Len(e.sto) : StoRd(sto, e.sto[i][1]) = e.sto[i][2]
               /\ \A k \in DOMAIN sto : \E i \in 1..Len(e.sto) : e.sto[i][1] = k
-   IN  /\ Judge(e.op, {"Executes", "FinalMemory", "FinalStorage"},
-                {c \in {"Executes"} : ~okX} \cup {c \in {"FinalMemory"} : okX /\ ~okM} \cup {c \in {"FinalStorage"} : okX /\ ~okS})
-       /\ mem' = Empty /\ msize' = 0 /\ sto' = Empty /\ orig' = Empty
+       \* a straight-line program of computational, stack, memory, storage and state-READING opcodes moves no value:
+       \* the balances of the known accounts after it are those at its first instruction
+       okB == e.bal0 = e.bal1
+   IN  /\ Judge(e.op, {"Executes", "FinalMemory", "FinalStorage", "EnvOpsReadOnly"},
+                {c \in {"Executes"} : ~okX} \cup {c \in {"FinalMemory"} : okX /\ ~okM} \cup {c \in {"FinalStorage"} : okX /\ ~okS}
+                \cup {c \in {"EnvOpsReadOnly"} : okX /\ ~okB})
+       /\ mem' = Empty /\ msize' = 0 /\ sto' = Empty /\ orig' = Empty /\ envv' = Empty /\ accts' = Empty
 
 \* the storage the program's contract was deployed with
 BeginEv(e) ==
    LET S == { e.sto0[i][1] : i \in DOMAIN e.sto0 }
        f == [k \in S |-> (CHOOSE i \in DOMAIN e.sto0 : e.sto0[i][1] = k)]
        m0 == [k \in S |-> e.sto0[f[k]][2]]
+       A  == { e.accts[i][1] : i \in DOMAIN e.accts }
+       ai == [a \in A |-> (CHOOSE i \in DOMAIN e.accts : e.accts[i][1] = a)]
    IN  /\ orig' = m0 /\ sto' = m0 /\ mem' = Empty /\ msize' = 0 /\ UNCHANGED <<viol, fired>>
+       /\ envv' = e.env
+       /\ accts' = [a \in A |-> [bal |-> e.accts[ai[a]][2], size |-> e.accts[ai[a]][3], hash |-> e.accts[ai[a]][4]]]
 
 MonStep ==
    /\ l <= Len(TraceLog)
@@ -134,7 +160,7 @@ MonStep ==
       CASE e.ev = "Step" /\ l < Len(TraceLog) -> StepEv(e, TraceLog[l + 1].b)
         [] e.ev = "End" -> EndEv(e)
         [] e.ev = "Begin" -> BeginEv(e)
-        [] OTHER -> mem' = Empty /\ msize' = 0 /\ sto' = Empty /\ orig' = Empty /\ UNCHANGED <<viol, fired>>       \* reset / abort markers
+        [] OTHER -> mem' = Empty /\ msize' = 0 /\ sto' = Empty /\ orig' = Empty /\ envv' = Empty /\ accts' = Empty /\ UNCHANGED <<viol, fired>>       \* reset / abort markers
 
 MonSpec == MonInit /\ [][MonStep]_mvars
 
